@@ -190,56 +190,77 @@ L_ORDER = 2**252 + 27742317777372353535851937790883648493
 def heap_batch_invert(rep, cfg, path, n, S):
     """Scalar::batch_invert: the scalar kernels are summarised as 'result = some value depending on the operands'
     (fresh symbolic limbs; exact value when every operand limb is a constant), so every non-constant cell is
-    potentially secret-dependent; at every dealloc the freed block must hold constants only"""
+    potentially secret-dependent; at every dealloc the freed block must hold constants only.  Data-dependent two-way branches (the
+    constant-time code has none; an early exit on a secret-derived test would be one) are explored both ways: with havoc summaries
+    both outcomes are taken to be possible (all secret values, zero included, are in the property's domain)."""
+    from llsym.lsym import c_not
     t0 = time.time()
     rec = dict(harness="%s/heap Scalar::batch_invert n=%d" % (cfg, n), config=cfg, function="scalar::Scalar::batch_invert", goals=[],
-               bounds="n = %d scalars, every byte symbolic (canonical or not)" % n,
+               bounds="n = %d scalars, every byte symbolic (canonical or not, zero or not); every outcome of every data-dependent branch (at most 16 paths)" % n,
                assumptions=["Scalar kernels (mul, square, montgomery_mul, montgomery_square, as_montgomery, from_montgomery, montgomery_invert) havoc their output (fresh limbs) unless all operand limbs are constants: their arithmetic is C02's subject, here only data flow into heap cells matters"])
     try:
         lay = S["layout"]; rb = S["rb"]; nl = S["n"]; R = pow(2, rb * nl, L_ORDER); Ri = pow(R, -1, L_ORDER)
-        it = LSym(module(path))
-        cnt = [0]
-        def summar(nops, f):
-            def h(it, args, name):
-                ops = []
-                for a in args[1:1 + nops]:
-                    ops.append([it.ctx.resolve(it.P(it.load(Ptr(a.r, a.o + lay.cell * i), lay.cell))) for i in range(nl)])
-                if all(x.is_const() for o in ops for x in o):
-                    v = f(*[sum(x.cval() << (rb * i) for i, x in enumerate(o)) for o in ops]) % L_ORDER
-                    out = [Poly.const((v >> (rb * i)) & ((1 << rb) - 1)) for i in range(nl)]
-                else:
-                    cnt[0] += 1
-                    out = [it.ctx.input("k%d_%d" % (cnt[0], i), 0, (1 << rb) - 1) for i in range(nl)]
-                for i in range(nl): it.store(Ptr(args[0].r, args[0].o + lay.cell * i), out[i], lay.cell)
-                return None
-            return h
-        base = S["sub"].split("(")[0]
-        it.intercept = [(base + r'(14montgomery_mul|::montgomery_mul)$', summar(2, lambda a, b: a * b * Ri)),
-                        (base + r'(17montgomery_square|::montgomery_square)$', summar(1, lambda a: a * a * Ri)),
-                        (base + r'(13as_montgomery|::as_montgomery)$', summar(1, lambda a: a * R)),
-                        (base + r'(15from_montgomery|::from_montgomery)$', summar(1, lambda a: a * Ri)),
-                        (base + r'(3mul|::mul)$', summar(2, lambda a, b: a * b)),
-                        (base + r'(6square|::square)$', summar(1, lambda a: a * a)),
-                        (r'(17montgomery_invert|::montgomery_invert)$', summar(1, lambda a: pow(a * Ri, -1, L_ORDER) * R if a % L_ORDER else 0))]
-        freed = []
-        def on_dealloc(p, args):
-            Rg = it.regions[p.r]
-            dirty = sorted(o for o, e in Rg.b.items() if not (isinstance(e[0], Poly) and it.ctx.resolve(e[0]).is_const()))
-            freed.append((p.r, Rg.size, dirty))
-        it.on_dealloc = on_dealloc
-        out = it.new_region("out", 32); inp = it.new_region("inputs", 32 * n)
-        for k in range(32 * n): it.store(Ptr(inp.r, k), it.ctx.input("s%d_%d" % (k // 32, k % 32), 0, 255), 1)
-        it.call("vp_sc_batch_invert", [out, inp, Poly.const(n)])
-        big = [f for f in freed if f[1] >= lay.size() * n]
-        rec["goals"].append(dict(goal="the scratch buffer (>= %d bytes) is freed during the call" % (lay.size() * n), verdict="unsat" if big else "sat", solver_s=0.0, cases=1, solver_calls=0, kind="structural (vacuity guard)"))
-        rec["goals"].append(dict(goal="secret-derived values reached the heap (kernel summaries produced %d symbolic results)" % cnt[0], verdict="unsat" if cnt[0] > 0 else "sat", solver_s=0.0, cases=1, solver_calls=0, kind="structural (vacuity guard)"))
-        for r, size, dirty in freed:
-            rec["goals"].append(dict(goal="freed block %s (%s bytes): every cell is a constant (no secret-derived value)" % (r, size), verdict="unsat" if not dirty else "sat", solver_s=0.0, cases=1, solver_calls=0,
-                                     kind="memory cells are secret-independent", dirty_offsets=dirty[:8], nontrivial=True))
+        decisions = []; npaths = 0; steps = 0
+        while True:
+            npaths += 1
+            it = LSym(module(path))
+            used = list(decisions); bstate = dict(i=0)
+            def brancher(it_, f_, lab, c, ins, used=used, bstate=bstate):
+                i = bstate["i"]; bstate["i"] += 1
+                if i >= len(used): used.append(0)
+                v = used[i]
+                it_.ctx.assume.append(c if v else c_not(c))
+                return ins[3] if v else ins[4]
+            it.allow_symbolic_branch = brancher
+            cnt = [0]
+            def summar(nops, f, it=it, cnt=cnt):
+                def h(it, args, name):
+                    ops = []
+                    for a in args[1:1 + nops]:
+                        ops.append([it.ctx.resolve(it.P(it.load(Ptr(a.r, a.o + lay.cell * i), lay.cell))) for i in range(nl)])
+                    if all(x.is_const() for o in ops for x in o):
+                        v = f(*[sum(x.cval() << (rb * i) for i, x in enumerate(o)) for o in ops]) % L_ORDER
+                        out = [Poly.const((v >> (rb * i)) & ((1 << rb) - 1)) for i in range(nl)]
+                    else:
+                        cnt[0] += 1
+                        out = [it.ctx.input("k%d_%d" % (cnt[0], i), 0, (1 << rb) - 1) for i in range(nl)]
+                    for i in range(nl): it.store(Ptr(args[0].r, args[0].o + lay.cell * i), out[i], lay.cell)
+                    return None
+                return h
+            base = S["sub"].split("(")[0]
+            it.intercept = [(base + r'(14montgomery_mul|::montgomery_mul)$', summar(2, lambda a, b: a * b * Ri)),
+                            (base + r'(17montgomery_square|::montgomery_square)$', summar(1, lambda a: a * a * Ri)),
+                            (base + r'(13as_montgomery|::as_montgomery)$', summar(1, lambda a: a * R)),
+                            (base + r'(15from_montgomery|::from_montgomery)$', summar(1, lambda a: a * Ri)),
+                            (base + r'(3mul|::mul)$', summar(2, lambda a, b: a * b)),
+                            (base + r'(6square|::square)$', summar(1, lambda a: a * a)),
+                            (r'(17montgomery_invert|::montgomery_invert)$', summar(1, lambda a: pow(a * Ri, -1, L_ORDER) * R if a % L_ORDER else 0))]
+            freed = []
+            def on_dealloc(p, args, it=it, freed=freed):
+                Rg = it.regions[p.r]
+                dirty = sorted(o for o, e in Rg.b.items() if not (isinstance(e[0], Poly) and it.ctx.resolve(e[0]).is_const()))
+                freed.append((p.r, Rg.size, dirty))
+            it.on_dealloc = on_dealloc
+            out = it.new_region("out", 32); inp = it.new_region("inputs", 32 * n)
+            for k in range(32 * n): it.store(Ptr(inp.r, k), it.ctx.input("s%d_%d" % (k // 32, k % 32), 0, 255), 1)
+            it.call("vp_sc_batch_invert", [out, inp, Poly.const(n)])
+            steps += it.steps
+            pd = "" if (npaths == 1 and not used) else "path %s: " % "".join(map(str, used))
+            big = [f for f in freed if f[1] >= lay.size() * n]
+            rec["goals"].append(dict(goal=pd + "the scratch buffer (>= %d bytes) is freed during the call" % (lay.size() * n), verdict="unsat" if big else "sat", solver_s=0.0, cases=1, solver_calls=0, kind="structural (vacuity guard)"))
+            rec["goals"].append(dict(goal=pd + "secret-derived values reached the heap (kernel summaries produced %d symbolic results)" % cnt[0], verdict="unsat" if cnt[0] > 0 else "sat", solver_s=0.0, cases=1, solver_calls=0, kind="structural (vacuity guard)"))
+            for r, size, dirty in freed:
+                rec["goals"].append(dict(goal=pd + "freed block %s (%s bytes): every cell is a constant (no secret-derived value)" % (r, size), verdict="unsat" if not dirty else "sat", solver_s=0.0, cases=1, solver_calls=0,
+                                         kind="memory cells are secret-independent", dirty_offsets=dirty[:8], nontrivial=True))
+            d = used[:]
+            while d and d[-1] == 1: d.pop()
+            if not d or npaths >= 16: break
+            d[-1] = 1; decisions = d
+        rec["paths"] = npaths
         bad = [g for g in rec["goals"] if g["verdict"] != "unsat"]
         rec["status"] = "ok" if not bad else ("violation" if any("freed block" in g["goal"] for g in bad) else "inconclusive")
-        if bad: rec["why"] = bad[0]["goal"]
-        rec["ir_steps"] = it.steps
+        if bad: rec["why"] = ([g for g in bad if "freed block" in g["goal"]] or bad)[0]["goal"]
+        rec["ir_steps"] = steps
     except Unsupported as e:
         rec["status"] = "inconclusive"; rec["why"] = "unsupported IR: " + str(e)
     except PanicReached as e:
